@@ -133,6 +133,17 @@ def sym_groups(tier, seed):
             sc = diag_scripts(M, r2, 16 if quick else 80, G.OPS)
             calls = ['VWD(Sym%d, (%d), (%d,%d), "%s");' % (sz, M, M, M, s) for s in sc]
             groups.append({"key": "%s/sz%d/vea0/diag" % (isa, sz), "header": "view_write_sym.h", "isa": isa, "opt": "-O0", "defs": [], "calls": calls})
+    # TensorMap parents (slices of a map are always the generic n-D view classes): rank rotating over four configurations
+    for ci, (isa, sz) in enumerate(cfgs):
+        if quick and ci % 2 != seed % 2:
+            continue
+        V = G.vwidth(isa, sz)
+        for which in ([("d1", "d2", "d3")[(ci // 2 + seed) % 3]] if quick else ["d1", "d2", "d3"]):
+            dims, rd = dyn_shapes(V, seed, which)
+            r2 = random.Random(rng.random())
+            sc = dyn_scripts(dims, rd, V, r2, 120 if quick else 800, 28 if quick else 96, 30 if quick else 200, True)
+            calls = ['VWP(Sym%d, %s, %s, "%s");' % (sz, tup(rd), tup(dims), s) for s in sc]
+            groups.append({"key": "%s/sz%d/vea0/map-%s" % (isa, sz, which), "header": "view_write_sym.h", "isa": isa, "opt": "-O0", "defs": [], "calls": calls})
     groups.append(scalar_sym_group(tier, seed, random.Random(seed * 31 + 7)))
     return only_filter(groups)
 
@@ -246,6 +257,21 @@ def real_groups(tier, seed):
                 calls = ['VWRD(%s, (%d), (%d,%d), %du, "%s");' % (t, M, M, M, seed * 1000 + k, s) for k, s in enumerate(sc)]
                 groups.append({"key": "real/%s/%s/vea0/diag" % (isa, t), "header": "view_write_real.h", "isa": isa, "opt": "-O2",
                                "defs": ["-ffp-contract=off"], "pre": "", "calls": calls})
+        # TensorMap parents on the real types: one cell per ISA (quick)
+        ci = 0
+        for isa in isas:
+            for (t, sz) in REAL_TYPES:
+                ci += 1
+                if quick and (ci + seed + (ci - 1) // 4) % 4 != 2:
+                    continue
+                V = G.vwidth(isa, sz)
+                which = ("d1", "d2", "d3")[(ci + seed) % 3]
+                dims, rd = dyn_shapes(V, seed + ci, which)
+                r2 = random.Random(rng.random())
+                sc = dyn_scripts(dims, rd, V, r2, 60 if quick else 400, 30 if quick else 100, 30 if quick else 150, False, ops=G.OPS5)
+                calls = ['VWRP(%s, %s, %s, %du, "%s");' % (t, tup(rd), tup(dims), seed * 1000 + k, s) for k, s in enumerate(sc)]
+                groups.append({"key": "real/%s/%s/vea0/map-%s" % (isa, t, which), "header": "view_write_real.h", "isa": isa, "opt": "-O2",
+                               "defs": ["-ffp-contract=off"], "pre": "", "calls": calls})
         groups += scalar_real_groups(tier, seed, random.Random(seed * 37 + 5))
     finally:
         G.REVERSED_P[0] = 0.0
@@ -272,7 +298,13 @@ def sym_call_of(inp):
     dims = tuple(int(x) for x in d["dims"].split("x")); rd = tuple(int(x) for x in d["rd"].split("x"))
     g = {"key": "replay", "header": "view_write_sym.h", "isa": d["cfg"], "opt": "-O0",
          "defs": (["-DFASTOR_USE_VECTORISED_EXPR_ASSIGN"] if d.get("vea") == "1" else []) + (["-DFASTOR_NO_ALIAS=1"] if d.get("nal") == "1" else [])}
-    if d["cls"] == "diag":
+    if d["cls"] == "mapdyn":
+        g["calls"] = ['VWP(Sym%s, %s, %s, "%s");' % (d["sz"], tup(rd), tup(dims), d["W"])]
+    elif d["cls"] == "mapfix":
+        dst = d["W"].split("/")[0].split(".")[3]
+        fs = "(" + ", ".join("fseq<%s>" % ax.replace("_", ",") for ax in dst.split(",")) + ")"
+        g["calls"] = ['VWPF(Sym%s, %s, %s, %s, "%s");' % (d["sz"], tup(rd), tup(dims), fs, d["W"])]
+    elif d["cls"] == "diag":
         g["calls"] = ['VWD(Sym%s, %s, %s, "%s");' % (d["sz"], tup(rd), tup(dims), d["W"])]
     elif d["cls"] == "fix":
         dst = d["W"].split("/")[0].split(".")[3]
